@@ -52,15 +52,19 @@ impl Tx {
         }
 
         // Each output value, as well as the total, must be in legal money range
-        let mut total_out = 0;
+        // (checked inside the loop: both operands are then at most MAX_SATOSHIS, so the i64 sum is exact)
+        let mut total_out: i64 = 0;
         for tx_out in self.outputs.iter() {
             if tx_out.satoshis < 0 {
                 return Err(ChainGangError::BadData("tx_out satoshis negative".to_string()));
             }
+            if tx_out.satoshis > MAX_SATOSHIS {
+                return Err(ChainGangError::BadData("tx_out satoshis exceeds max satoshis".to_string()));
+            }
             total_out += tx_out.satoshis;
-        }
-        if total_out > MAX_SATOSHIS {
-            return Err(ChainGangError::BadData("Total out exceeds max satoshis".to_string()));
+            if total_out > MAX_SATOSHIS {
+                return Err(ChainGangError::BadData("Total out exceeds max satoshis".to_string()));
+            }
         }
 
         // Make sure none of the inputs are coinbase transactions
@@ -78,20 +82,23 @@ impl Tx {
         }
 
         // Check that all inputs are in the utxo set and are in legal money range
-        let mut total_in = 0;
+        let mut total_in: i64 = 0;
         for tx_in in self.inputs.iter() {
             let utxo = utxos.get(&tx_in.prev_output);
             if let Some(tx_out) = utxo {
                 if tx_out.satoshis < 0 {
                     return Err(ChainGangError::BadData("tx_out satoshis negative".to_string()));
                 }
+                if tx_out.satoshis > MAX_SATOSHIS {
+                    return Err(ChainGangError::BadData("utxo satoshis exceeds max satoshis".to_string()));
+                }
                 total_in += tx_out.satoshis;
+                if total_in > MAX_SATOSHIS {
+                    return Err(ChainGangError::BadData("Total in exceeds max satoshis".to_string()));
+                }
             } else {
                 return Err(ChainGangError::BadData("utxo not found".to_string()));
             }
-        }
-        if total_in > MAX_SATOSHIS {
-            return Err(ChainGangError::BadData("Total in exceeds max satoshis".to_string()));
         }
 
         // Check inputs spent > outputs received
